@@ -22,7 +22,13 @@
 (*   res = [x |-> "ok" | "err" | "PANIC" (| "HANG" only ever produced by an adapter),       *)
 (*          r |-> integer result (handle id / value / count) or visited values (ForEach..)]  *)
 (*   st  = both lists forwards and backwards, Len, Front, Back, and Prev/Next/Value of      *)
-(*         every handle id.                                                                 *)
+(*         every handle id.  The adapters fill st through the read-only API after every call *)
+(*         (Len, Front, Back, Values, ForEach, ForEachReverse, Range, RangeReverse, and      *)
+(*         Prev/Next/Value of every handle); `agree` says all iteration APIs gave one answer.*)
+(* cfg files: List.cfg (quick MC, 4 handles), List.lts.cfg (all calls, 3 handles) and       *)
+(* List.lts2.cfg (element-creating calls, 4 handles) are exported and walked on the three   *)
+(* real objects; List.trace.cfg validates recorded histories (6 handles, ids recycled by    *)
+(* Forget, tainted lists included); List.thorough.cfg / List.deep.cfg: thorough tier.       *)
 EXTENDS Integers, Sequences, FiniteSets, TLC
 
 CONSTANTS Ns,       \* sizes of the handle table (cfg.n)
